@@ -20,18 +20,23 @@ def seeded():
 
 def seeded_summary():
     ms = [json.load(open(m)) for m in sorted(glob.glob(os.path.join(V, "seeded", "*", "meta.json")))]
-    missed = [j["id"] for j in ms if "missed first" in j["result"] or "missed at first" in j["result"] or "missed by" in j["result"] or "after adding" in j["result"]]
+    missed = [j["id"] for j in ms if "missed first" in j["result"] or "missed at first" in j["result"] or "missed by" in j["result"] or "after adding" in j["result"]
+              or "not detected by" in j["result"] or "NOT detected" in j["result"]]
+    undetected = [j["id"] for j in ms if "NOT detected" in j["result"]]
+    cross = [j["id"] for j in ms if "not detected by" in j["result"]]
     r1 = [j for j in ms if j["id"][-1] in "ab"]
     r2 = [j for j in ms if j["id"][-1] in "cd"]
     r3 = [j for j in ms if j["id"][-1] in "ef"]
     r4 = [j for j in ms if j["id"][-1] in "gh"]
+    r5 = [j for j in ms if j["id"][-1] in "ij"]
     def nm(r):
         return len([j for j in r if j["id"] in missed])
     return ("%d kept mutants: %d from the first round (ids -a/-b, %d missed at first), %d from the second (ids -c/-d, %d missed at first; "
             "their authors were told which sites the first round had used), %d from the third (ids -e/-f, %d missed at first; told the sites "
-            "of both earlier rounds), %d from the fourth (ids -g/-h, %d missed at first). All are detected by the current checks. Missed by the check "
-            "as it stood when the mutant arrived: %s."
-            % (len(ms), len(r1), nm(r1), len(r2), nm(r2), len(r3), nm(r3), len(r4), nm(r4), ", ".join(missed)))
+            "of both earlier rounds), %d from the fourth (ids -g/-h, %d missed at first), %d from the fifth (ids -i/-j, %d missed at first). "
+            "Not detected by any current check: %s. Detected only by the check of another property than the one the change was written against: %s. "
+            "All others are detected by the current check of their property. Missed by the check as it stood when the mutant arrived: %s."
+            % (len(ms), len(r1), nm(r1), len(r2), nm(r2), len(r3), nm(r3), len(r4), nm(r4), len(r5), nm(r5), ", ".join(undetected) or "none", ", ".join(cross) or "none", ", ".join(missed)))
 
 def main():
     p = os.path.join(V, "DESIGN.md")
